@@ -1005,6 +1005,14 @@ def c11(chk, tier):
                     inside = [x for x in fx.lex if b <= x[1] < end]
                     if not (inside and inside[-1][0] == TEXT):      # bare text would swallow nothing, but keep clear of it
                         cands.append(("dup_child", kw, d[:end] + d[ls:end] + d[end:], [(ls, end + (end - ls) + 1)], ls))
+                        # ... the first copy with an empty quoted parameter: two children all the same
+                        pj = [x for x in fx.lex[k + 1:k + 3] if x[0] == PARAM and x[1] < line_end(d, b)]
+                        if pj and kw in ("Title", "Version", "BaseUrl", "Protocol", "Query"):
+                            pb, pe = pj[0][1], pj[0][2]
+                            q0 = pb - 1 if d[pb - 1:pb] == b'"' else pb
+                            q1 = pe + 2 if d[pe + 1:pe + 2] == b'"' else pe + 1
+                            first = d[ls:q0] + b'""' + d[q1:end]
+                            cands.append(("dup_child_first_empty", kw, d[:ls] + first + d[ls:end] + d[end:], [(ls, ls + len(first) + (end - ls) + 1)], ls))
         if tb:
             for (st, en, nd) in tb[0]:
                 if nd["k"] in NAMED_DECL:
